@@ -122,3 +122,31 @@ Definition rd_end_txn (t : tree) : option (bool * bytes) :=                     
 Theorem c19_end_txn (id : bytes) (commit : bool) : option_map rd_end_txn (x_val (end_txn id commit)) = Some (Some (commit, id)).
 Proof. now destruct commit. Qed.
 Print Assumptions c19_sync_request.
+
+(* ---- composed with C07: from the control's value bytes, in any definite encoding, to what the parser hands the caller ---- *)
+Definition parse_value {A} (p : tree -> outcome A) (v : bytes) : outcome A :=       (* Control parsers start with parse_tag(val).expect(..) *)
+  match parse_tag (S (List.length v)) v with POk (t, _) => p t | _ => Panic end.
+Theorem c19_paged_response_bytes size cookie sz bs : (0 <= size < 2^31)%Z -> parse_uint sz = Z.to_N size ->
+  BerEnc (seq [P Universal 2 sz; oct cookie]) bs -> parse_value parse_paged bs = Ok (size, cookie).
+Proof.
+  intros Hs Hsz He. unfold parse_value.
+  pose proof (proj1 any_encoding_parses _ _ He (S (List.length bs)) [] ltac:(lia)) as Hp. rewrite app_nil_r in Hp. rewrite Hp.
+  now apply c19_paged_response.
+Qed.
+Theorem c19_sync_state_bytes st uuid ck bs :
+  BerEnc (seq (P Universal 10 (enc_small (state_code st)) :: oct uuid :: match ck with Some c => [oct c] | None => @nil tree end)) bs ->
+  parse_value parse_sync_state bs = Ok (st, uuid, ck).
+Proof.
+  intros He. unfold parse_value.
+  pose proof (proj1 any_encoding_parses _ _ He (S (List.length bs)) [] ltac:(lia)) as Hp. rewrite app_nil_r in Hp. rewrite Hp.
+  apply c19_sync_state.
+Qed.
+Theorem c19_sync_done_bytes (ck : option bytes) (rd : bool) bs :
+  BerEnc (seq (app (match ck with Some c => [oct c] | None => @nil tree end) (if rd then [boolt true] else @nil tree))) bs ->
+  parse_value parse_sync_done bs = Ok (ck, rd).
+Proof.
+  intros He. unfold parse_value.
+  pose proof (proj1 any_encoding_parses _ _ He (S (List.length bs)) [] ltac:(lia)) as Hp. rewrite app_nil_r in Hp. rewrite Hp.
+  apply c19_sync_done.
+Qed.
+Print Assumptions c19_paged_response_bytes.
